@@ -132,6 +132,10 @@ class NVSubroutineTranspiler(SubroutineTranspiler):
 
         index_changes = {}  # map index in commands to index in new_commands
 
+        # DebugInstructions are not serialized, so they are not counted
+        # when computing the positions that branch instructions refer to.
+        num_debug = 0
+
         for i, instr in enumerate(self._subroutine.instructions):
             # check which registers are being written to
             affected_regs = instr.writes_to()
@@ -157,16 +161,18 @@ class NVSubroutineTranspiler(SubroutineTranspiler):
                 if isinstance(op, Register):
                     self._used_registers.update([op])
 
-            index_changes[i] = len(new_commands)
+            index_changes[i] = len(new_commands) - num_debug
 
             if isinstance(instr, core.SingleQubitInstruction) or isinstance(
                 instr, core.RotationInstruction
             ):
-                new_commands += self._handle_single_qubit_gate(instr)
+                expansion = self._handle_single_qubit_gate(instr)
             elif isinstance(instr, core.TwoQubitInstruction):
-                new_commands += self._handle_two_qubit_gate(instr)
+                expansion = self._handle_two_qubit_gate(instr)
             else:
-                new_commands += [instr]
+                expansion = [instr]
+            new_commands += expansion
+            num_debug += sum(isinstance(c, DebugInstruction) for c in expansion)
 
         add_no_op_at_end = False
 
@@ -182,7 +188,7 @@ class NVSubroutineTranspiler(SubroutineTranspiler):
                     # Since this label is now removed, we should put a "no-op"
                     # instruction there so there is something to jump to.
                     add_no_op_at_end = True
-                    instr.line = Immediate(len(new_commands))
+                    instr.line = Immediate(len(new_commands) - num_debug)
                 else:
                     instr.line = Immediate(index_changes[instr.line.value])
 
